@@ -235,3 +235,16 @@ mixed('C10', ['CFG.reverse'], ['bridge/cfgrev.lean'],
 mixed('C12', ['CFG.is_empty', 'CFG.get_reachable_symbols'], [],
       'Deductive for get_reachable_symbols (exactly the symbols occurring in a sentential form derivable from the start symbol, by closure induction) and is_empty (modular: start symbol not in the assumed result of get_generating_symbols).',
       'contract-based deductive verification (pyvc + z3) for reachability and the emptiness wrapper; bounded run-time contract checking for generating/nullable sets, finiteness (networkx) and word enumeration', CFG_TRUST[:2] + ['contract of CFG.get_generating_symbols is ASSUMED at the call site in is_empty'])
+
+def mixed2(pid, jobs, lean, proved_text, technique, extra_trusted=()):
+    sp = PROPS[pid]
+    sp['pyvc'] = jobs; sp['lean'] = lean; sp['level'] = 'other'; sp['technique'] = technique
+    sp['level_text'] = proved_text + ' The rest of the chain is only covered by the bounded stand-in: ' + sp['level_text'].replace('Bounded stand-in only: ', '')
+    sp['explanation'] = 'mixed: functions listed under functions_proved are verified deductively from their current source; everything under functions_bounded_only is bounded (see level_text)'
+    sp['trusted_base'] = list(sp.get('trusted_base', [])) + list(extra_trusted)
+mixed2('C13', [('contracts.pda', k) for k in ('fn.get_next_free[State]', 'fn.get_next_free[StackSymbol]', 'PDA.to_final_state', 'PDA.to_empty_stack')], [],
+       'Deductive for PDA.to_final_state and PDA.to_empty_stack: the result has exactly the operand transitions plus the bottom-marker wrapper transitions, a start state, an end state and a bottom symbol that are proved fresh (not states / stack symbols of the operand, pairwise different) through the proved contract of get_next_free, for every PDA incl. ones that already use the reserved names; the operand is unchanged.',
+       'contract-based deductive verification (pyvc + z3) of the acceptance-mode wrappers and of get_next_free; bounded run-time contract checking (exact PDA membership oracle) for to_cfg, to_pda and for the language statements',
+       ['language statements of the two wrappers from their proved structure: Hopcroft-Motwani-Ullman Thm 6.9 / 6.11, assumed, backed by the bounded comparison',
+        'facts about Python strings assumed: the six reserved prefixes are pairwise different and end in "#" (so prefix+digits of one never equals another); State / StackSymbol equality is equality of the value',
+        'view-level contracts of pda.TransitionFunction.copy / add_transition and of the PDA constructor are assumed (their concrete dict-of-set representation is not verified)'])
